@@ -138,3 +138,46 @@ Definition show_read (w : bytes) : bytes :=
   | Some (Tok s, rest) => x54 :: hexs s ++ x20 :: hexs rest    (* T<hex> <rest> *)
   | Some (Str s, rest) => x53 :: hexs s ++ x20 :: hexs rest    (* S<hex> <rest> *)
   end.
+
+(* ---- arrays of strings: the tight writer (sen/tight.go tightArray: elements separated by one
+   blank, the last blank overwritten by the bracket) and the reader around the string-value reader *)
+Fixpoint sen_elems (html : bool) (xs : list bytes) : bytes :=
+  match xs with
+  | [] => []
+  | [x] => sen_string html x
+  | x :: r => sen_string html x ++ x20 :: sen_elems html r
+  end.
+Definition sen_array (html : bool) (xs : list bytes) : bytes :=
+  match xs with [] => [x5b; x5d] | _ => x5b :: sen_elems html xs ++ [x5d] end.
+
+Fixpoint skip_ws (w : bytes) : bytes :=
+  match w with
+  | b :: r => if act_is (SenMaps.tab_valueMap b) SenMaps.A_skipChar then skip_ws r else w
+  | [] => []
+  end.
+Fixpoint read_elems (fuel : nat) (w : bytes) : option (list rout * bytes) :=
+  match fuel with
+  | O => None
+  | S f =>
+      match skip_ws w with
+      | [] => None
+      | b :: r =>
+          if act_is (SenMaps.tab_valueMap b) SenMaps.A_closeArray then Some ([], r)
+          else match rrun rinit (b :: r) with
+               | Some (o, r2) => match read_elems f r2 with Some (l, k) => Some (o :: l, k) | None => None end
+               | None => None
+               end
+      end
+  end.
+Definition read_array (w : bytes) : option (list rout * bytes) :=
+  match w with
+  | b :: r => if act_is (SenMaps.tab_valueMap b) SenMaps.A_openArray then read_elems (S (length r)) r else None
+  | [] => None
+  end.
+
+Definition show_read_array (w : bytes) : bytes :=
+  match read_array w with
+  | None => [x2d]
+  | Some (l, rest) =>
+      flat_map (fun o => match o with Tok s => x54 :: hexs s ++ [x20] | Str s => x53 :: hexs s ++ [x20] end) l ++ x7c :: hexs rest
+  end.
